@@ -7,6 +7,7 @@ IMPORTS = "From Ergo Require Import Common.Base Sup.Intensity Sup.IntensityCases
 
 def run(c):
     c.proofs("theories/Properties/C09.v", clean=(c.tier == "thorough"))
+    c.translate(['TieSup'])  # T1: formulas / constants regenerated from the source, tie theorems re-checked
     n = 400 if c.tier == "quick" else 6000
     kind = sm.replay_kind(c)
     if c.replay and (kind.startswith("machine") or kind.startswith("e2e")):
